@@ -66,7 +66,13 @@ class Extractor:
                 return "len(%s)" % v
         return None
 
+    def mentions_field(self, e):
+        return any(self.var_of(n) is not None for n in ast.walk(e))
+
     def const_of(self, e, st=None):
+        if self.mentions_field(e):
+            # a field is symbolic here: its class-level default must never be taken for its value
+            raise AnalysisError("validate: expression depends on a validated field: %s" % canon(e))
         env = {}
         if st is not None:
             env = {k[1:]: v for k, v in st.items() if isinstance(k, str) and k.startswith("$")}
@@ -464,14 +470,23 @@ class Extractor:
             return []
         if isinstance(st, ast.Assign) and len(st.targets) == 1 and isinstance(st.targets[0], ast.Name) \
                 and self.var_of(st.value) is None:
-            # local holding a folded constant (e.g. `allowed = range(0, 4)`), path-sensitive
-            out = []
-            for s in states:
-                v = self.const_of(st.value, s)
-                s2 = dict(s)
-                s2["$" + st.targets[0].id] = v
-                out.append(s2)
-            return out
+            # local holding a folded constant (e.g. `allowed = range(0, 4)`), path-sensitive; a conditional
+            # expression over the fields splits the states (`range(0, 4) if self.mod_type is X else range(0, 2)`)
+            def bind(states_, value):
+                if isinstance(value, ast.IfExp) and self.mentions_field(value.test):
+                    out_ = []
+                    for s in states_:
+                        out_ += bind(self.refine(s, value.test, True), value.body)
+                        out_ += bind(self.refine(s, value.test, False), value.orelse)
+                    return out_
+                out_ = []
+                for s in states_:
+                    v = self.const_of(value, s)
+                    s2 = dict(s)
+                    s2["$" + st.targets[0].id] = v
+                    out_.append(s2)
+                return out_
+            return bind(states, st.value)
         if isinstance(st, ast.Assign) and len(st.targets) == 1 and isinstance(st.targets[0], ast.Attribute) \
                 and isinstance(st.targets[0].value, ast.Name) and st.targets[0].value.id == "self" \
                 and st.targets[0].attr not in self.fields and isinstance(st.value, ast.Constant):
